@@ -238,3 +238,9 @@ Definition from_bytes (d : list N) : cbs := mkcbs 0 (8 * length d) d.
 (* ---------- specification-layer helpers ---------- *)
 Definition of_bools (l : list bool) : cbs :=
   from_bits (map b2n l).
+
+(* an 8-bit group as the iterator reports it: (value, number of bits) *)
+Definition grp (g : list bool) : N * nat := (bits_to_N g, length g).
+
+Definition nibble_bits (d : N) : list bool :=
+  [N.testbit d 3; N.testbit d 2; N.testbit d 1; N.testbit d 0].
